@@ -266,6 +266,71 @@ def adapt_state() -> tuple[list[str], list[str]]:
     return state, writes
 
 
+# functions the model covers: (file, qualified name). Their normalised-AST hashes are compared with the
+# pinned ones (translator/c09_pins.json, written by `python -m translator.opset_facts --pin` on a clean tree);
+# a difference is no verdict, it makes the harness search harder (more programs of the families that
+# exercise adaptation), whatever was changed.
+COVERED_FUNCTIONS = [
+    ("src/spox/_adapt.py", "adapt_node"), ("src/spox/_adapt.py", "adapt_inline"),
+    ("src/spox/_adapt.py", "adapt_best_effort"), ("src/spox/_adapt.py", "_initializers_to_constants"),
+    ("src/spox/_graph.py", "Graph.get_adapted_nodes"), ("src/spox/_graph.py", "Graph.get_opsets"),
+    ("src/spox/_graph.py", "Graph._get_opset_req"), ("src/spox/_graph.py", "Graph._get_build_result"),
+    ("src/spox/_graph.py", "Graph.with_opset"), ("src/spox/_graph.py", "Graph.to_onnx"),
+    ("src/spox/_graph.py", "Graph.to_onnx_model"),
+    ("src/spox/_schemas.py", "max_opset_policy"),
+    ("src/spox/_inline.py", "_Inline.opset_req"), ("src/spox/_inline.py", "_Inline.to_onnx"),
+    ("src/spox/_function.py", "Function.opset_req"), ("src/spox/_function.py", "Function.to_onnx_function"),
+    ("src/spox/_node.py", "Node.opset_req"),
+    ("src/spox/_build.py", "Builder.build_main"), ("src/spox/_build.py", "Builder.compile_graph"),
+]
+PINS = __import__("pathlib").Path(__file__).with_name("c09_pins.json")
+
+
+def _strip_docstrings(node):
+    for n in ast.walk(node):
+        if isinstance(n, (ast.FunctionDef, ast.AsyncFunctionDef, ast.ClassDef, ast.Module)):
+            if n.body and isinstance(n.body[0], ast.Expr) and isinstance(getattr(n.body[0], "value", None), ast.Constant) \
+                    and isinstance(n.body[0].value.value, str):
+                n.body = n.body[1:] or [ast.Pass()]
+    return node
+
+
+def ast_hashes() -> dict:
+    import hashlib
+
+    out = {}
+    for rel, qual in COVERED_FUNCTIONS:
+        key = f"{rel.rsplit('/', 1)[-1]}:{qual}"
+        try:
+            body = parse(rel).body
+            found = None
+            parts = qual.split(".")
+            for st in body:
+                if len(parts) == 2 and isinstance(st, ast.ClassDef) and st.name == parts[0]:
+                    for m in st.body:
+                        if isinstance(m, (ast.FunctionDef, ast.AsyncFunctionDef)) and m.name == parts[1]:
+                            found = m
+                elif len(parts) == 1 and isinstance(st, (ast.FunctionDef, ast.AsyncFunctionDef)) and st.name == qual:
+                    found = st
+            if found is None:
+                out[key] = "absent"
+                continue
+            out[key] = hashlib.sha1(ast.dump(_strip_docstrings(found), include_attributes=False).encode()).hexdigest()[:12]
+        except Exception as e:  # noqa: BLE001
+            out[key] = f"unreadable:{type(e).__name__}"
+    return out
+
+
+def ast_changed(hashes: dict) -> list[str]:
+    import json
+
+    try:
+        pins = json.loads(PINS.read_text())
+    except Exception:  # noqa: BLE001
+        pins = {}
+    return sorted(k for k, v in hashes.items() if pins.get(k) != v)
+
+
 def collect() -> dict:
     """Every part degrades to an empty table (the obligations and the correspondences that need it then
     fail and are reported as broken) instead of raising when the source no longer has the expected shape."""
@@ -290,6 +355,11 @@ def collect() -> dict:
     except Exception as e:  # noqa: BLE001
         state, writes = [f"inventory failed: {type(e).__name__}"], []
         problems.append(f"adaptation state inventory: {e}")
+    try:
+        hashes = ast_hashes()
+        changed = ast_changed(hashes)
+    except Exception:  # noqa: BLE001
+        hashes, changed = {}, ["ast hashes not computable"]
     names = sorted({(d, n) for (d, n) in runs} | {(r["domain"], r["op"]) for r in rows})
     op_id = {k: i for i, k in enumerate(names)}
     compat = []
@@ -302,7 +372,7 @@ def collect() -> dict:
                     compat.append((d, n, s, t))
     return {"internal_min_opset": imo, "shipped": rows, "runs": runs, "ranges": ranges,
             "names": names, "op_id": op_id, "compat": compat, "problems": problems,
-            "adapt_state": state, "adapt_attr_writes": writes}
+            "adapt_state": state, "adapt_attr_writes": writes, "ast_hashes": hashes, "ast_changed": changed}
 
 
 def generate() -> dict:
@@ -361,5 +431,10 @@ def generate() -> dict:
 
 
 if __name__ == "__main__":
+    if "--pin" in sys.argv:
+        import json
+
+        PINS.write_text(json.dumps(ast_hashes(), indent=1, sort_keys=True) + "\n")
+        print("pinned", PINS)
     i = generate()
-    print(i["internal_min_opset"], len(i["shipped"]), len(i["runs"]), len(i["compat"]), i["ranges"])
+    print(i["internal_min_opset"], len(i["shipped"]), len(i["runs"]), len(i["compat"]), i["ranges"], "changed:", i["ast_changed"])
